@@ -1778,3 +1778,251 @@ func ruleClientLoopShape(p *Prog, r *Out) {
 		r.check(first, "the first error of the connection is the recorded one", p.pos(sl.Pos()), "if c.lastErr == nil { c.lastErr = err }", "setLastErr no longer keeps the first error: requests are resolved with a later, derived error (or none)")
 	}
 }
+
+// ---------------------------------------------------------------- server loops: remaining shape clauses
+
+func init() {
+	register(&Rule{
+		Name: "server-loop-shape", Props: []string{"C01", "C08", "C09", "C10", "C13", "C14", "C20"}, Engine: "FDE", Floor: 16,
+		Doc: "glue of the server's stream loop that no other rule pins: a refused stream is answered with RST_STREAM(REFUSED_STREAM); accepting HEADERS on a new id takes the slot and records the id as the highest accepted, together; both closing tests are 'closing and every promised stream has finished'; a content-length mismatch at dispatch time is 'declared and different' and resets the stream with PROTOCOL_ERROR; a GOAWAY that names a stream records the highest accepted id as the connection's reference; writeError emits the frame of the error's class with the error's code; END_HEADERS completes the block only when nothing is carried over, and the mandatory pseudo-headers are then required (each of :method, :scheme, :path); a WINDOW_UPDATE of 0 is refused; the declared content length is recorded with its marker; TE is refused unless it is exactly 'trailers'; the response HEADERS frame has END_HEADERS, is attached and queued, and the body (stream or buffer) is registered before sending starts",
+		Run: ruleServerLoopShape,
+	})
+}
+
+func ruleServerLoopShape(p *Prog, r *Out) {
+	hs := p.decl("(*serverConn).handleStreams")
+	hf := p.decl("(*serverConn).handleFrame")
+	hh := p.decl("(*serverConn).handleHeaderFrame")
+	we := p.decl("(*serverConn).writeError")
+	fr := p.decl("(*serverConn).finishRequest")
+	if hs == nil || hf == nil || hh == nil || we == nil || fr == nil {
+		r.undecided("server loops", "?", "handleStreams/handleFrame/handleHeaderFrame/writeError/finishRequest no longer all resolve")
+		return
+	}
+	r.fn("(*serverConn).handleStreams", "(*serverConn).handleFrame", "(*serverConn).handleHeaderFrame", "(*serverConn).writeError", "(*serverConn).finishRequest", "(*serverConn).writeGoAway", "validateRequestPseudoHeaders")
+	pos := p.pos(hs.Pos())
+	c := fdeCheck{p, r, pos}
+	// refusal
+	refuse, take := false, false
+	closings := 0
+	var mismatch *ast.IfStmt
+	ast.Inspect(hs.Body, func(n ast.Node) bool {
+		ifs, ok := n.(*ast.IfStmt)
+		if !ok {
+			return true
+		}
+		ct := squash(p.text(ifs.Cond))
+		switch {
+		case strings.Contains(ct, "openStreams>=int(sc.st.maxStreams)"):
+			for _, s := range ifs.Body.List {
+				if es, ok := s.(*ast.ExprStmt); ok {
+					if cl, ok := es.X.(*ast.CallExpr); ok && p.calleeOf(cl) == "(*serverConn).writeReset" && squash(p.text(cl.Args[0])) == "fr.Stream()" && p.text(cl.Args[1]) == "RefusedStreamError" {
+						refuse = true
+					}
+				}
+			}
+		case ct == "fr.Type()==FrameHeaders":
+			inc, last := false, false
+			for _, s := range ifs.Body.List {
+				if ids, ok := s.(*ast.IncDecStmt); ok && p.text(ids.X) == "openStreams" && ids.Tok == token.INC {
+					inc = true
+				}
+				if as, ok := s.(*ast.AssignStmt); ok && squash(p.text(as.Lhs[0])) == "sc.lastID" && squash(p.text(as.Rhs[0])) == "fr.Stream()" {
+					last = true
+				}
+			}
+			if inc || last {
+				take = inc && last
+			}
+		case strings.Contains(ct, "canCloseAfterGoAway()"):
+			if p.isConjunctionOf(ifs.Cond, "isClosing()", "canCloseAfterGoAway()") || p.isConjunctionOf(ifs.Cond, "wasClosing", "canCloseAfterGoAway()") {
+				for _, s := range ifs.Body.List {
+					if b, ok := s.(*ast.BranchStmt); ok && b.Tok == token.BREAK && b.Label != nil {
+						closings++
+					}
+				}
+			}
+		case strings.Contains(ct, "strm.hasContentLength"):
+			mismatch = ifs
+		}
+		return true
+	})
+	r.check(refuse, "a refused stream is told so", pos, "writeReset(fr.Stream(), RefusedStreamError)", "a stream that is refused (limit reached, or the connection is closing) no longer gets RST_STREAM(REFUSED_STREAM): the client waits for a response that never comes, and cannot know the request is safe to retry")
+	r.check(take, "accepting a request stream takes its slot and records its id", pos, "if HEADERS { openStreams++; sc.lastID = fr.Stream() }", "accepting HEADERS on a new stream no longer increments the open-stream count and records the id as the highest accepted, together: the concurrency limit drifts, or GOAWAY and the id-ordering tests work from a stale id")
+	r.check(closings == 2, "the loop leaves only when closing and every promised stream has finished", pos, "closing && canCloseAfterGoAway() -> break loop (after a handler report and after a frame)", fmt.Sprintf("%d of the 2 graceful-close tests are the conjunction of 'a GOAWAY was sent' and 'every stream it promised has finished' followed by leaving the loop: with anything weaker the connection is cut under running requests, with anything stronger Serve never returns", closings))
+	if mismatch != nil {
+		c.expr("content-length disagreement is 'declared and different'", mismatch.Cond, fdeDomain{[]string{"strm.hasContentLength", "strm.recvBody", "strm.contentLength"}, [][]int64{{0, 1}, {0, 3, 5}, {0, 3, 5}}}, nil, func(e fdeEnv) int64 {
+			return b2i(e["strm.hasContentLength"] != 0 && e["strm.recvBody"] != e["strm.contentLength"])
+		}, "hasContentLength && recvBody != contentLength", "RFC 7540 s8.1.2.6: a request whose DATA does not add up to its content-length is malformed; one without a content-length is not")
+		rst := false
+		inspectCalls(mismatch.Body, func(cl *ast.CallExpr) {
+			if p.calleeOf(cl) == "(*serverConn).writeReset" && p.text(cl.Args[1]) == "ProtocolError" {
+				rst = true
+			}
+		})
+		r.check(rst, "content-length disagreement resets the stream", p.pos(mismatch.Pos()), "writeReset(strm.ID(), ProtocolError)", "a request whose body length disagrees with its content-length is no longer answered with RST_STREAM(PROTOCOL_ERROR)")
+	} else {
+		r.bad("content-length disagreement is 'declared and different'", pos, "no content-length test at dispatch")
+	}
+	// writeGoAway records the reference
+	if wg := p.decl("(*serverConn).writeGoAway"); wg != nil {
+		ok := false
+		for _, s := range wg.Body.List {
+			if ifs, isIf := s.(*ast.IfStmt); isIf {
+				if cmp, okc := p.canonCmp(ifs.Cond, nil); okc && cmp.Op == "ne" && cmp.L.eq(Lin{T: map[string]int64{"strm": 1}}) {
+					inspectCalls(ifs.Body, func(cl *ast.CallExpr) {
+						if p.calleeOf(cl) == "atomic.StoreUint32" && squash(p.text(cl.Args[0])) == "&sc.closeRef" && squash(p.text(cl.Args[1])) == "sc.lastID" {
+							ok = true
+						}
+					})
+				}
+			}
+		}
+		r.check(ok, "a GOAWAY that names a stream sets the drain reference", p.pos(wg.Pos()), "if strm != 0 { closeRef = lastID }", "writeGoAway no longer records the highest accepted stream id as the reference the graceful-close test waits for, exactly when the GOAWAY names a stream: the connection either never closes after the error or closes under the requests it promised")
+	}
+	// writeError emissions
+	{
+		ga, rs, fallbackGA, fallbackRS := 0, 0, false, false
+		ast.Inspect(we.Body, func(n ast.Node) bool {
+			switch x := n.(type) {
+			case *ast.CaseClause:
+				if len(x.List) != 1 {
+					return true
+				}
+				switch p.text(x.List[0]) {
+				case "FrameGoAway":
+					inspectCalls(x, func(cl *ast.CallExpr) {
+						if p.calleeOf(cl) == "(*serverConn).writeGoAway" && squash(p.text(cl.Args[1])) == "streamErr.Code()" {
+							ga++
+						}
+					})
+				case "FrameResetStream":
+					inspectCalls(x, func(cl *ast.CallExpr) {
+						if p.calleeOf(cl) == "(*serverConn).writeReset" && squash(p.text(cl.Args[0])) == "strm.ID()" && squash(p.text(cl.Args[1])) == "streamErr.Code()" {
+							rs++
+						}
+					})
+				}
+			case *ast.IfStmt:
+				if squash(p.text(x.Cond)) == "!errors.As(err,&streamErr)" {
+					inspectCalls(x.Body, func(cl *ast.CallExpr) {
+						if p.calleeOf(cl) == "(*serverConn).writeGoAway" && p.text(cl.Args[1]) == "InternalError" {
+							fallbackGA = true
+						}
+						if p.calleeOf(cl) == "(*serverConn).writeReset" && p.text(cl.Args[1]) == "InternalError" {
+							fallbackRS = true
+						}
+					})
+				}
+			}
+			return true
+		})
+		r.check(ga == 2 && rs == 1, "writeError emits the error's frame with the error's code", p.pos(we.Pos()), "GoAway class -> writeGoAway(.., Code()); Reset class -> writeReset(strm.ID(), Code())", fmt.Sprintf("writeError no longer answers a connection-class error with GOAWAY (found %d of 2 sites) and a stream-class error with RST_STREAM on its stream (found %d of 1), each carrying the error's own code", ga, rs))
+		r.check(fallbackGA && fallbackRS, "a foreign error is answered with INTERNAL_ERROR", p.pos(we.Pos()), "no stream: GOAWAY(INTERNAL_ERROR); stream: RST_STREAM(INTERNAL_ERROR)", "an error that is not one of the library's own is no longer answered at all (GOAWAY without a stream, RST_STREAM with one, INTERNAL_ERROR)")
+	}
+	// handleFrame: END_HEADERS completes the block
+	{
+		var fin ast.Expr
+		var incomplete *ast.IfStmt
+		validated := false
+		zeroInc := false
+		ast.Inspect(hf.Body, func(n ast.Node) bool {
+			switch x := n.(type) {
+			case *ast.AssignStmt:
+				if len(x.Lhs) == 1 && squash(p.text(x.Lhs[0])) == "strm.headersFinished" && p.text(x.Rhs[0]) != "true" && p.text(x.Rhs[0]) != "false" {
+					fin = x.Rhs[0]
+				}
+			case *ast.IfStmt:
+				if squash(p.text(x.Cond)) == "!strm.headersFinished" && isRejectingBody(p, x.Body) && incomplete == nil && fin != nil {
+					incomplete = x
+				}
+				if x.Init != nil && strings.Contains(p.text(x.Init), "validateRequestPseudoHeaders(strm)") && squash(p.text(x.Cond)) == "err!=nil" {
+					if res := firstReturn(x.Body); len(res) == 1 && p.text(res[0]) == "err" {
+						validated = true
+					}
+				}
+				if cmp, ok := p.canonCmp(x.Cond, nil); ok && cmp.Op == "eq" && cmp.L.eq(Lin{T: map[string]int64{"win": 1}}) && isRejectingBody(p, x.Body) {
+					zeroInc = true
+				}
+			}
+			return true
+		})
+		ch := fdeCheck{p, r, p.pos(hf.Pos())}
+		ch.expr("END_HEADERS completes the block only when nothing is carried over", fin, fdeDomain{[]string{"len(strm.previousHeaderBytes)"}, [][]int64{seq(0, 3)}}, nil, func(e fdeEnv) int64 { return b2i(e["len(strm.previousHeaderBytes)"] == 0) }, "len(previousHeaderBytes) == 0", "a block that ends in the middle of a field is not complete")
+		r.check(incomplete != nil, "an incomplete block at END_HEADERS is refused", p.pos(hf.Pos()), "if !headersFinished { reject }", "END_HEADERS on a block with a cut field is no longer an error")
+		r.check(validated, "mandatory pseudo-headers are required at END_HEADERS", p.pos(hf.Pos()), "if err := validateRequestPseudoHeaders(strm); err != nil { return err }", "the completed header block is no longer checked for its mandatory pseudo-headers (or the verdict is dropped)")
+		r.check(zeroInc, "WINDOW_UPDATE of 0 is refused", p.pos(hf.Pos()), "if win == 0 { reject }", "a stream WINDOW_UPDATE with an increment of 0 is no longer an error (RFC 7540 s6.9)")
+	}
+	if vd := p.decl("validateRequestPseudoHeaders"); vd != nil {
+		okv := false
+		if len(vd.Body.List) > 0 {
+			if ifs, ok := vd.Body.List[0].(*ast.IfStmt); ok && isRejectingBody(p, ifs.Body) {
+				atoms, pure := pureJunction(ifs.Cond, false)
+				want := map[string]bool{"strm.pseudoMethod": true, "strm.pseudoScheme": true, "strm.pseudoPath": true}
+				good := pure && len(atoms) == 3
+				for _, a := range atoms {
+					if !a.Val || !want[squash(p.text(a.Cond))] { // each atom is !flag: in the disjunction it appears negated
+						good = false
+					}
+				}
+				okv = good
+			}
+		}
+		r.check(okv, "each of :method, :scheme, :path is required", p.pos(vd.Pos()), "!method || !scheme || !path -> reject", "the mandatory pseudo-header test is no longer the plain disjunction of the three 'missing' tests: a request without :scheme (or :method, or :path) is dispatched")
+	}
+	// handleHeaderFrame: content-length recorded, TE rule
+	{
+		rec := 0
+		var te ast.Expr
+		ast.Inspect(hh.Body, func(n ast.Node) bool {
+			switch x := n.(type) {
+			case *ast.AssignStmt:
+				if len(x.Lhs) == 1 {
+					l, rr := squash(p.text(x.Lhs[0])), p.text(x.Rhs[0])
+					if (l == "strm.contentLength" && rr == "n") || (l == "strm.hasContentLength" && rr == "true") {
+						rec++
+					}
+				}
+			case *ast.IfStmt:
+				if strings.Contains(p.text(x.Cond), "StringTE") && isRejectingBody(p, x.Body) {
+					te = x.Cond
+				}
+			}
+			return true
+		})
+		r.check(rec == 2, "declared content length is recorded with its marker", p.pos(hh.Pos()), "contentLength = n; hasContentLength = true", "the declared content-length (or the marker that one was declared) is no longer recorded: the check against the DATA received never fires")
+		ok := te != nil && p.isConjunctionOf(te, "bytes.Equal(k,StringTE)", "!bytes.Equal(v,StringTrailers)")
+		r.check(ok, "TE is refused unless it is 'trailers'", p.pos(hh.Pos()), "Equal(k, te) && !Equal(v, trailers) -> reject", "the TE rule is no longer 'the field is te and its value is not trailers': every te field (or every field that is not 'trailers') is refused, or none")
+	}
+	// finishRequest
+	{
+		flags, attached, queued := false, false, false
+		streamReg, bufReg := false, false
+		for _, s := range fr.Body.List {
+			if es, ok := s.(*ast.ExprStmt); ok {
+				t := squash(p.text(es.X))
+				switch t {
+				case "h.SetEndHeaders(true)":
+					flags = true
+				case "fr.SetBody(h)":
+					attached = true
+				case "sc.write(fr)":
+					queued = true
+				}
+			}
+			if ifs, ok := s.(*ast.IfStmt); ok && strings.Contains(p.text(ifs.Cond), "IsBodyStream()") && ifs.Else != nil {
+				got := map[string]string{}
+				ast.Inspect(ifs, func(m ast.Node) bool {
+					if as, ok := m.(*ast.AssignStmt); ok && len(as.Lhs) == 1 {
+						got[squash(p.text(as.Lhs[0]))+"<-"+squash(p.text(as.Rhs[0]))] = "x"
+					}
+					return true
+				})
+				streamReg = got["strm.bodyStream<-ctx.Response.BodyStream()"] != "" && got["strm.bodySize<-int64(ctx.Response.Header.ContentLength())"] != ""
+				bufReg = got["strm.pendingData<-ctx.Response.Body()"] != "" && got["strm.pendingEnd<-true"] != ""
+			}
+		}
+		r.check(flags && attached && queued, "response HEADERS frame is complete, attached and queued", p.pos(fr.Pos()), "h.SetEndHeaders(true); fr.SetBody(h); sc.write(fr)", "the response's HEADERS frame no longer has END_HEADERS set, its body attached and is queued: the peer waits for CONTINUATION frames that never come, or never sees the response")
+		r.check(streamReg && bufReg, "response body is registered before sending starts", p.pos(fr.Pos()), "stream: bodyStream, bodySize; buffer: pendingData = Body(), pendingEnd = true", "finishRequest no longer registers the response body with the stream (the reader and its declared size, or the buffer with its end marker): the body is never sent, or its end never signalled")
+	}
+}
